@@ -23,7 +23,7 @@ def run_model(tag, loaders, flags, causes, lens, maxsteps):
     write_cfg(cfg, {"MaxSteps": maxsteps, "BugLeakOnError": False, "BugNoTruncate": False, "LoaderSet": st(loaders), "FlagSet": st(flags),
                     "CauseSet": st(causes), "LenSet": st(lens)},
               invariants=["StoreExact", "RegionSound", "LiveWhileReadable", "ReleasedAtMostOnce", "NoLeakOnFailure",
-                          "ReleasedWhenDropped", "StructureBeforeBackend", "EmitM"])
+                          "ReleasedWhenDropped", "StructureBeforeBackend", "AdviceGiven", "MappingReadOnly", "EmitM"])
     r = tlc("MC_MemCase", cfg, tag, workers=8, timeout=3000)
     if not r.ok:
         raise ToolError(f"TLC did not complete on MC_MemCase: violated={r.violated} error={r.error}\n{r.out[-2000:]}")
@@ -185,6 +185,11 @@ def check(pid, tier, seed, V):
             judge(pid, b, c, o, V)
         total += len(cases)
         V.cov[f"cases_{build}"] = len(cases)
+        if not nommap:
+            # implementation -> specification: the same cases once more under strace, the system calls and the
+            # allocator calls validated against Trace_Loader.tla (lengths, protection, advice, single release, order)
+            from . import loadertrace
+            loadertrace.validate(pid, cases, tag + "_systrace", V)
         if nommap:
             build_harness()
     if pid == "C09":
@@ -198,6 +203,8 @@ def check(pid, tier, seed, V):
                      "send to a thread and back or drop there, share through Arc with two readers) to the step bound; each "
                      "terminal state is replayed on a real file; distinct = distinct harness case")
     V.cov["exhaustive"] = True
-    V.assumptions += ["heap usage is observed by the harness' tracking global allocator, mappings through /proc/self/maps",
+    V.assumptions += ["system calls are observed with strace -f; the allocator's calls with alignment >= 64 are reported by "
+                      "the harness's global allocator as marker system calls at the moment of the call",
+                      "heap usage is observed by the harness' tracking global allocator, mappings through /proc/self/maps",
                       "a double release would abort the process (glibc / munmap of a foreign range is not detected)",
                       "the backing region is read through the cfg(epserde_verif) hook MemCase::verif_backend_range"]
